@@ -114,6 +114,8 @@ class QuantDriver:
         mm = []
         if op == "pfx":
             return self._filter(self._pfx(ev, stats))
+        if op == "meas":
+            return self._filter(self._meas(ev, stats))
         a = self.pool[ev["i"] - 1]
         arec = self.sys["pool"][ev["i"] - 1]
         b = brec = None
@@ -210,6 +212,43 @@ class QuantDriver:
             if got != want_phys and abs(got - want_phys) > Fraction(1e-9 if self.approx else 1e-12) * scale:
                 mm.append(self._mm(vprop, "%s:physical-value" % op, "%s: SI value %s, expected %s" % (desc, float(got), float(want_phys))))
         return self._filter(mm)
+
+    REL = {0: "disjoint", 1: "touching", 2: "partial-overlap", 3: "first-nested-in-second", 4: "second-nested-in-first", 5: "identical"}
+
+    def _meas(self, ev, stats):
+        """C12: comparisons involving a Measurement (also approximately(...) and a Level) are symmetric"""
+        m = self.m
+        a, b = self.pool[ev["i"] - 1], self.pool[ev["j"] - 1]
+        ua, ub = frac(ev["phys"]["r"]), Fraction(ev["phys"]["pv"][0], ev["phys"]["pv"][1])
+        rel = self.REL[ev["n"]]
+        same_unit = a.unit is b.unit
+        desc = "%s +/- %s  vs  %s +/- %s (%s)" % (self._desc({"op": "", "i": 1}, self.sys["pool"][ev["i"] - 1], None), ua,
+                                                 self._desc({"op": "", "i": 1}, self.sys["pool"][ev["j"] - 1], None), ub, rel)
+        try:
+            x = m.Measurement(a, float(ua) if not isinstance(a.magnitude, Decimal) else Decimal(ua.numerator) / Decimal(ua.denominator))
+            y = m.Measurement(b, float(ub) if not isinstance(b.magnitude, Decimal) else Decimal(ub.numerator) / Decimal(ub.denominator))
+        except Exception as ex:
+            return [self._mm("C12", "measurement:construction-raised:%s" % type(ex).__name__, desc)]
+        mm = []
+        pairs = [("measurement==measurement", x, y)]
+        if ub == 0:
+            pairs.append(("measurement==quantity", x, b))
+        if ua == 0:
+            pairs.append(("quantity==measurement", a, y))
+        for name, p, q in pairs:
+            try:
+                r1 = p == q
+            except Exception as ex:
+                r1 = "raised:" + type(ex).__name__
+            try:
+                r2 = q == p
+            except Exception as ex:
+                r2 = "raised:" + type(ex).__name__
+            stats["ok"] = stats.get("ok", 0) + 1
+            if r1 != r2:
+                mm.append(self._mm("C12", "measurement:asymmetric-eq:%s:%s:%s" % (name, rel, "same-unit" if same_unit else "different-units"),
+                                   "%s: x == y is %r but y == x is %r" % (desc, r1, r2)))
+        return mm
 
     def _pfx(self, ev, stats):
         """a prefix written on either side of a unit that may already carry one"""
@@ -339,7 +378,7 @@ def tlc_quant(label, size, group="all", timeout=3000):
 
 
 GROUPS = {"C03": ["addsub", "muldiv", "unary", "cmp"], "C06": ["addsub", "muldiv", "unary", "cmp"],
-          "C11": ["prefix", "muldiv", "unary", "addsub"], "C12": ["cmp"]}
+          "C11": ["prefix", "muldiv", "unary", "addsub"], "C12": ["cmp", "meas"]}
 
 
 def run_quant(prop, tier, seed):
